@@ -177,6 +177,34 @@ func blkLayouts(r *hx.Rng, backends []string, lines []blkLine, namings []string,
 	return out
 }
 
+// one random layout: backends on the directive line / on `upstream` lines / mixed, lines in a random order
+func blkRandLayout(r *hx.Rng, nBackends int) string {
+	naming := hx.Pick(r, []string{"d", "u", "u"})
+	if nBackends > 1 && r.Chance(1, 3) {
+		naming = "m" + strconv.Itoa(1+r.Intn(nBackends-1))
+	}
+	return naming + ":" + strconv.FormatUint(r.U64()>>1, 10)
+}
+
+// coverage tags of a layout
+func blkLayoutTags(lay string) []string {
+	if lay == "" {
+		return nil
+	}
+	direct, order, _ := blkParseLayout(lay)
+	tags := []string{"block-written-another-way"}
+	switch {
+	case direct == 0:
+		tags = append(tags, "backends-on-upstream-lines")
+	case direct > 0:
+		tags = append(tags, "backends-mixed")
+	}
+	if order != 0 {
+		tags = append(tags, "block-lines-reordered")
+	}
+	return tags
+}
+
 // blkFlag returns the value of the token name=value in a comma separated flags field
 func blkFlag(flags, name string) string {
 	for _, t := range strings.Split(flags, ",") {
